@@ -733,6 +733,8 @@ def _as_max_min(pred, a, b):
     if isinstance(a, (dict, list, tuple, Inst)) or isinstance(b, (dict, list, tuple, Inst)):
         return None
     d = pred.arg
+    if alg._real_valued(d):
+        return None            # reals can be NaN: a selection on a comparison is then NOT jnp.minimum / maximum (which propagate NaN)
     hi_lo = None
     for shift in ((0, 1) if pred.kind == 'ge0' else (0,)):        # integer strict comparisons carry a shift of one
         if d + shift == pa - pb:
@@ -840,7 +842,15 @@ def eqx_tree_at(where, pytree_, replace=None, replace_fn=None, is_leaf=None):
     except Exception:
         sel = None
     if replace_fn is not None:
-        raise Top("tree_at with replace_fn")
+        if replace is not None:
+            raise Finding("tree_at with both replace and replace_fn")
+        from .interp import get_path as _get_path
+        if isinstance(sel, PathProxy):
+            replace = replace_fn(_get_path(pytree_, sel.path))
+        elif isinstance(sel, (tuple, list)) and all(isinstance(s_, PathProxy) for s_ in sel):
+            replace = type(sel)(replace_fn(_get_path(pytree_, s_.path)) for s_ in sel)
+        else:
+            raise Top("tree_at with replace_fn on an unresolved selection")
     if isinstance(sel, PathProxy):
         sels, reps, single = [sel], [replace], True
     elif isinstance(sel, (tuple, list)) and all(isinstance(s, PathProxy) for s in sel):
@@ -1073,9 +1083,20 @@ def dc_fields(obj):
 
 
 def _identity_decorator(f=None, **kw):
+    donated = {k_: v_ for k_, v_ in kw.items() if k_ in ('donate', 'donate_argnums', 'donate_argnames') and v_ not in (None, 'none', (), [])}
+
+    def wrap(g):
+        if not donated:
+            return g
+
+        def donating(*a, **k):
+            # buffers donated to a jitted function are deleted after an eager call: the caller's objects are invalidated
+            raise Finding(f"a function jitted with {donated} deletes (donates) the arrays of its arguments when it is called eagerly: "
+                          f"the objects handed to it cannot be used again")
+        return donating
     if f is None:
-        return lambda g: g
-    return f
+        return wrap
+    return wrap(f)
 
 
 def _jnp_filled_or_sym(c):
@@ -1492,6 +1513,31 @@ def _result_type(*xs):
     return NS("dtype", kind=k, name={'b': 'bool', 'i': 'int32', 'f': 'float32'}[k])
 
 
+def _dstack(items):
+    """numpy.dstack: arrays of rank <= 2 get a trailing axis ((n,) -> (1, n, 1), (m, n) -> (m, n, 1)), then concatenation along axis 2"""
+    out = []
+    for v in items:
+        a = to_at(v)
+        if len(a.axes) == 0:
+            a = a[None, None, None]
+        elif len(a.axes) == 1:
+            a = a[None, :, None]
+        elif len(a.axes) == 2:
+            a = a[:, :, None]
+        out.append(a)
+    return alg.jnp_concatenate(out, 2)
+
+
+def _roll(a, shift, axis=None):
+    a = to_at(a)
+    if axis is None:
+        raise Top("roll of the flattened array")
+    ax = int(_dim(axis)) % len(a.axes)
+    if not isinstance(a.axes[ax], int):
+        raise Top("roll along a named axis")
+    return AT(a.axes, np.roll(a.data, int(_dim(shift)), axis=a.cidx(ax)))
+
+
 def _linearize(f, *primals):
     """jax.linearize(f, x) = (f(x), v -> jvp(f, (x,), (v,))[1])"""
     y = f(*primals)
@@ -1735,7 +1781,7 @@ def make_world_externals(world_ref):
              array=_jnp_array, asarray=_jnp_array, result_type=_result_type, minimum=(lambda a, b: _min(a, b)), maximum=(lambda a, b: _max(a, b)),
              stack=_jnp_stack_model, concatenate=symaware('concatenate', alg.jnp_concatenate),
              hstack=symaware('hstack', alg.jnp_hstack), column_stack=symaware('column_stack', alg.jnp_column_stack),
-             vstack=symaware('vstack', alg.jnp_vstack),
+             vstack=symaware('vstack', alg.jnp_vstack), dstack=_dstack, roll=_roll,
              sum=_jnp_sum_model, mean=symaware('mean', alg.jnp_mean),
              trace=symaware('trace', alg.jnp_trace), abs=symaware('abs', alg.jnp_abs), log=symaware('log', alg.jnp_log),
              squeeze=symaware('squeeze', alg.jnp_squeeze), expand_dims=symaware('expand_dims', alg.jnp_expand_dims),
